@@ -352,6 +352,67 @@ Definition spec_provided_ok (ts : list trc) (isd : N) (now : Z) (ch : chain) : b
                end))
   end.
 
+(** ---------------------------------------------------------------- LoadChains (private/trust/store.go) *)
+
+(** activeTRCs with the error class LoadChains distinguishes *)
+Inductive ares := ANotFound | AInactive | AActive (l : list trc).
+Definition active_trcs_res (ts : list trc) (isd : N) (now : Z) : ares :=
+  match latest_trc ts isd with
+  | None => ANotFound
+  | Some t =>
+    if negb (trc_contains t now) then AInactive
+    else if negb (in_grace t now) then AActive [t]
+    else match find_trc ts isd (t_base t) (t_serial t - 1) with
+         | None => ANotFound
+         | Some g => AActive [t; g]
+         end
+  end.
+
+Inductive cfile := CFBad | CFChain (ch : chain).     (* CFBad: no readable PEM certificates *)
+
+Definition add_chain (d : db) (ch : chain) : db := mkdb (d_trcs d) (d_chains d ++ [ch]).
+
+(** LoadChains over the *.pem files in directory order: error flag, loaded and
+    ignored file names, the DB *)
+Fixpoint load_chains (now : Z) (files : list (N * cfile)) (d : db) (loaded ignored : list N)
+  : bool * list N * list N * db :=
+  match files with
+  | [] => (false, loaded, ignored, d)
+  | (name, f) :: r =>
+    let skip := load_chains now r d loaded (ignored ++ [name]) in
+    match f with
+    | CFBad => skip
+    | CFChain ch =>
+      if negb (validate_chain ch) then skip else
+      match ch with
+      | [] => skip
+      | a :: _ =>
+        if negb (contains (c_nb a) (c_na a) now) then skip else
+        match c_subject_ia a with
+        | IAOk isd _ =>
+          match active_trcs_res (d_trcs d) isd now with
+          | ANotFound => skip
+          | AInactive => (true, loaded, ignored, d)
+          | AActive trcs =>
+            if negb (existsb (fun t => verify_chain_trc ch (Some t) now) trcs) then skip
+            else if chain_in ch (d_chains d) then skip
+            else load_chains now r (add_chain d ch) (loaded ++ [name]) ignored
+          end
+        | _ => skip
+        end
+      end
+    end
+  end.
+
+(** the property for chains loaded from disk: same rule as for chains handed out *)
+Definition spec_loaded_ok (ts : list trc) (now : Z) (ch : chain) : bool :=
+  match ch with
+  | a :: _ => match c_subject_ia a with
+              | IAOk isd _ => valid_at a now && spec_provided_ok ts isd now ch
+              | _ => false end
+  | [] => false
+  end.
+
 (** ---------------------------------------------------------------- correspondence cases (C34) *)
 
 Inductive case :=
@@ -362,7 +423,10 @@ Inductive case :=
 | CProvider (d : db) (q : query) (allow_inactive rec_ok : bool) (fetch : option (list chain))
             (now : Z)
             (impl : option (list (list N)))          (* returned chains as id lists, sorted *)
-            (impl_db : list (list N)).               (* chain table afterwards, sorted *)
+            (impl_db : list (list N))                (* chain table afterwards, sorted *)
+| CLoadChains (now : Z) (d : db) (files : list (N * cfile))
+              (impl_err : bool) (impl_loaded impl_ignored : list N)
+              (impl_db : list (list N)).             (* chain table afterwards *)
 
 Definition subset_ids (a b : list (list N)) : bool :=
   forallb (fun x => existsb (ids_eqb x) b) a.
@@ -381,7 +445,10 @@ Definition known_chains (d : db) (fetch : option (list chain)) : list chain :=
   d_chains d ++ match fetch with Some l => l | None => [] end.
 Definition provider_oracle (d : db) (q : query) (allow_inactive : bool) (fetch : option (list chain))
            (now : Z) (impl : option (list (list N))) : bool :=
-  allow_inactive ||
+  (* with AllowInactive the chains found in the DB are handed out as they are
+     (documented exception); everything else - in particular chains fetched
+     from the network in that mode - is subject to the property *)
+  (allow_inactive && negb (is_nil (db_chains d q))) ||
   match impl with
   | None => true
   | Some l =>
@@ -390,6 +457,21 @@ Definition provider_oracle (d : db) (q : query) (allow_inactive : bool) (fetch :
                                   && spec_provided_ok (d_trcs d) (q_isd q) now ch)
                        (known_chains d fetch)) l
   end.
+
+Definition nset_eqb (a b : list N) : bool :=
+  (N.of_nat (length a) =? N.of_nat (length b)) && forallb (fun x => mem x b) a && forallb (fun x => mem x a) b.
+
+Definition file_chains (files : list (N * cfile)) : list chain :=
+  flat_map (fun nf => match snd nf with CFChain ch => [ch] | CFBad => [] end) files.
+
+(** every chain in the table afterwards was there before, or comes from a file
+    and satisfies the rule; nothing was removed *)
+Definition load_chains_oracle (now : Z) (d : db) (files : list (N * cfile)) (impl_db : list (list N)) : bool :=
+  forallb (fun ids =>
+             existsb (fun ch => ids_eqb (chain_ids ch) ids) (d_chains d)
+             || existsb (fun ch => ids_eqb (chain_ids ch) ids && spec_loaded_ok (d_trcs d) now ch)
+                        (file_chains files)) impl_db
+  && forallb (fun ch => existsb (ids_eqb (chain_ids ch)) impl_db) (d_chains d).
 
 Definition verify_oracle (ch : chain) (trcs : list (option trc)) (now : Z) (impl : bool) : bool :=
   negb impl
@@ -408,6 +490,11 @@ Definition check (c : case) : N :=
     let '(r, d') := get_chains d q ai rk f now in
     Check.verdict (res_eqb r impl && sameset_ids (map chain_ids (d_chains d')) impl_db)
                   (provider_oracle d q ai f now impl)
+  | CLoadChains now d files e l i impl_db =>
+    let '(e', l', i', d') := load_chains now files d [] [] in
+    Check.verdict (Bool.eqb e e' && nset_eqb l l' && nset_eqb i i'
+                   && sameset_ids (map chain_ids (d_chains d')) impl_db)
+                  (load_chains_oracle now d files impl_db)
   end.
 
 Definition diag (c : case) : list (list N) :=
@@ -419,6 +506,9 @@ Definition diag (c : case) : list (list N) :=
   | CProvider d q ai rk f now _ _ =>
     let '(r, d') := get_chains d q ai rk f now in
     match r with None => [[999]] | Some l => map chain_ids l end ++ [[888]] ++ map chain_ids (d_chains d')
+  | CLoadChains now d files _ _ _ _ =>
+    let '(e', l', i', d') := load_chains now files d [] [] in
+    [[if e' then 1 else 0]; l'; i'] ++ map chain_ids (d_chains d')
   end.
 
 End PKIChain.
